@@ -11,45 +11,60 @@ use core::sync::atomic::Ordering::*;
 pub type AS = ArcSwapAny<VPtr>;
 pub type G = Guard<VPtr>;
 
-pub struct Cx {
-    pub a: Option<AS>,
-    pub b: Option<AS>,
-    /// guards parked by the prologue of thread 1 / thread 2 (fills the 8 fast slots)
-    pub held1: [Option<G>; 8],
-    pub held2: [Option<G>; 8],
-    /// a guard handed from one thread to another
-    pub parked: Option<G>,
-    /// handles owned by the harness at the end (index of the pool object, or usize::MAX)
-    pub kept: [Option<VPtr>; 4],
-    /// values created by the setup (count 1 each) that writers will store: the concurrent phase
-    /// then modifies counts by atomic add/sub only
-    pub spare: [Option<VPtr>; 4],
-    /// permanent extra handles (one reference each) the bodies may clone from
-    pub pool: [Option<VPtr>; 4],
-    /// results recorded by bodies for the final function
-    pub res: [usize; 4],
+/// A cell of harness state shared between the scenario functions. Every field lives in its own
+/// cell (and arrays are arrays of cells) so that threads touching different fields never form
+/// overlapping references: the harness itself is clean under Miri's data-race detector.
+#[repr(transparent)]
+pub struct SCell<T>(core::cell::UnsafeCell<T>);
+unsafe impl<T> Sync for SCell<T> {}
+impl<T> SCell<T> {
+    pub const fn new(v: T) -> Self {
+        SCell(core::cell::UnsafeCell::new(v))
+    }
+    /// shared view (the cell is not being written concurrently)
+    #[inline(always)]
+    pub fn get(&self) -> &T {
+        unsafe { &*self.0.get() }
+    }
+    /// exclusive view (nobody else touches this cell right now)
+    #[allow(clippy::mut_from_ref)]
+    #[inline(always)]
+    pub fn mu(&self) -> &mut T {
+        unsafe { &mut *self.0.get() }
+    }
 }
-const NOG: Option<G> = None;
-const NOV: Option<VPtr> = None;
-pub static mut CX: Cx =
-    Cx { a: None, b: None, held1: [NOG; 8], held2: [NOG; 8], parked: None, kept: [NOV; 4], spare: [NOV; 4], pool: [NOV; 4], res: [9; 4] };
+
+const NOG: SCell<Option<G>> = SCell::new(None);
+const NOV: SCell<Option<VPtr>> = SCell::new(None);
+const NOR: SCell<usize> = SCell::new(9);
+pub static CX_A: SCell<Option<AS>> = SCell::new(None);
+pub static CX_B: SCell<Option<AS>> = SCell::new(None);
+/// guards parked by the prologue of thread 1 / thread 2 (fills the 8 fast slots)
+pub static CX_HELD1: [SCell<Option<G>>; 8] = [NOG; 8];
+pub static CX_HELD2: [SCell<Option<G>>; 8] = [NOG; 8];
+/// a guard handed from one thread to another
+pub static CX_PARKED: SCell<Option<G>> = SCell::new(None);
+/// handles owned by the harness at the end (by index of the pool object)
+pub static CX_KEPT: [SCell<Option<VPtr>>; 4] = [NOV; 4];
+/// values created by the setup (count 1 each) that writers will store: the concurrent phase
+/// then modifies counts by atomic add/sub only
+pub static CX_SPARE: [SCell<Option<VPtr>>; 4] = [NOV; 4];
+/// permanent extra handles (one reference each) the bodies may clone from
+pub static CX_POOL: [SCell<Option<VPtr>>; 4] = [NOV; 4];
+/// results recorded by bodies for the final function
+pub static CX_RES: [SCell<usize>; 4] = [NOR; 4];
 
 /// progress flags of writers, for the real-time part of linearizability
 pub static STARTED: HAtomic = HAtomic::new(0);
 pub static DONE: HAtomic = HAtomic::new(0);
 
-#[allow(static_mut_refs)]
-#[inline(always)]
-pub fn cx() -> &'static mut Cx {
-    unsafe { &mut CX }
-}
 #[inline(always)]
 fn a() -> &'static AS {
-    cx().a.as_ref().unwrap()
+    CX_A.get().as_ref().unwrap()
 }
 #[inline(always)]
 fn b() -> &'static AS {
-    cx().b.as_ref().unwrap()
+    CX_B.get().as_ref().unwrap()
 }
 
 #[inline(always)]
@@ -65,24 +80,24 @@ fn check_payload(v: &VPtr, id: u32) -> usize {
 /// A = obj0; obj1..obj3 are spare values for the writers
 #[no_mangle]
 pub extern "C" fn cs_setup1() {
-    cx().a = Some(AS::new(VPtr::create(0, 10)));
+    *CX_A.mu() = Some(AS::new(VPtr::create(0, 10)));
     for i in 1..POOL {
-        cx().spare[i] = Some(VPtr::create(i, 10 + i as u64));
+        *CX_SPARE[i].mu() = Some(VPtr::create(i, 10 + i as u64));
     }
 }
 
 /// A = obj0, B = obj2; obj1, obj3 spare
 #[no_mangle]
 pub extern "C" fn cs_setup2() {
-    cx().a = Some(AS::new(VPtr::create(0, 10)));
-    cx().b = Some(AS::new(VPtr::create(2, 12)));
-    cx().spare[1] = Some(VPtr::create(1, 11));
-    cx().spare[3] = Some(VPtr::create(3, 13));
+    *CX_A.mu() = Some(AS::new(VPtr::create(0, 10)));
+    *CX_B.mu() = Some(AS::new(VPtr::create(2, 12)));
+    *CX_SPARE[1].mu() = Some(VPtr::create(1, 11));
+    *CX_SPARE[3].mu() = Some(VPtr::create(3, 13));
 }
 
 #[inline(always)]
 fn spare(i: usize) -> VPtr {
-    cx().spare[i].take().unwrap()
+    CX_SPARE[i].mu().take().unwrap()
 }
 
 /// the thread has used the crate before (owns a node); all its slots are free again
@@ -97,20 +112,20 @@ pub extern "C" fn cs_warm() {
 #[no_mangle]
 pub extern "C" fn cs_fill8_t1() {
     for i in 0..8 {
-        cx().held1[i] = Some(b().load());
+        *CX_HELD1[i].mu() = Some(b().load());
     }
 }
 #[no_mangle]
 pub extern "C" fn cs_fill8_t2() {
     for i in 0..8 {
-        cx().held2[i] = Some(b().load());
+        *CX_HELD2[i].mu() = Some(b().load());
     }
 }
 /// thread 1 holds 3 guards of A itself (their debts are paid by a concurrent writer of A)
 #[no_mangle]
 pub extern "C" fn cs_fill3a_t1() {
     for i in 0..3 {
-        cx().held1[i] = Some(a().load());
+        *CX_HELD1[i].mu() = Some(a().load());
     }
 }
 
@@ -199,7 +214,7 @@ pub extern "C" fn cs_r_into_inner_keep() {
     merge();
     check_payload(&v, 1);
     let i = v.idx();
-    cx().kept[i] = Some(v);
+    *CX_KEPT[i].mu() = Some(v);
 }
 
 // ------------------------------------------------------------------ writer bodies
@@ -238,7 +253,7 @@ pub extern "C" fn cs_w_swap1() {
     check_payload(&old, 20);
     mark(1, old.idx() as u64);
     let i = old.idx();
-    cx().kept[i] = Some(old);
+    *CX_KEPT[i].mu() = Some(old);
 }
 
 /// swap(obj2) by a second writer
@@ -249,7 +264,7 @@ pub extern "C" fn cs_w_swap2() {
     merge();
     check_payload(&old, 21);
     let i = old.idx();
-    cx().kept[i] = Some(old);
+    *CX_KEPT[i].mu() = Some(old);
 }
 
 /// store to the OTHER container B (walks every node, must not disturb readers of A)
@@ -266,19 +281,19 @@ pub extern "C" fn cs_w_store_b3() {
 #[no_mangle]
 pub extern "C" fn cs_setup_pool() {
     for i in 0..POOL {
-        cx().pool[i] = Some(VPtr::create(i, 10 + i as u64));
+        *CX_POOL[i].mu() = Some(VPtr::create(i, 10 + i as u64));
     }
-    cx().a = Some(AS::new(cx().pool[0].as_ref().unwrap().clone()));
+    *CX_A.mu() = Some(AS::new(CX_POOL[0].get().as_ref().unwrap().clone()));
 }
 /// the same plus a second container B = obj3
 #[no_mangle]
 pub extern "C" fn cs_setup_pool2() {
     cs_setup_pool();
-    cx().b = Some(AS::new(cx().pool[3].as_ref().unwrap().clone()));
+    *CX_B.mu() = Some(AS::new(CX_POOL[3].get().as_ref().unwrap().clone()));
 }
 #[inline(always)]
 fn pool(i: usize) -> &'static VPtr {
-    cx().pool[i].as_ref().unwrap()
+    CX_POOL[i].get().as_ref().unwrap()
 }
 
 /// T1: compare_and_swap(current = obj0, new = obj1)
@@ -287,7 +302,7 @@ pub extern "C" fn cs_w_cas01() {
     let prev = a().compare_and_swap(pool(0), pool(1).clone());
     merge();
     let i = check_payload(&prev, 22);
-    cx().res[0] = i;
+    *CX_RES[0].mu() = i;
     drop(prev);
     merge();
 }
@@ -296,7 +311,7 @@ pub extern "C" fn cs_w_cas01() {
 pub extern "C" fn cs_w_swap2_store0() {
     let x = a().swap(pool(2).clone());
     merge();
-    cx().res[1] = check_payload(&x, 23);
+    *CX_RES[1].mu() = check_payload(&x, 23);
     drop(x);
     merge();
     a().store(pool(0).clone());
@@ -310,8 +325,8 @@ pub extern "C" fn cs_final_cas() {
     let f = check_payload(&g, 41);
     drop(g);
     merge();
-    let prev = cx().res[0];
-    let x = cx().res[1];
+    let prev = *CX_RES[0].get();
+    let x = *CX_RES[1].get();
     let swapped = prev == 0;
     // T1 saw obj0 (success) or obj2 (failure), never anything else
     vassert(prev == 0 || prev == 2, 60);
@@ -329,7 +344,7 @@ pub extern "C" fn cs_final_cas() {
 pub extern "C" fn cs_w_rcu_t1() {
     let prev = a().rcu(|v| pool(v.idx() + 1).clone());
     merge();
-    cx().res[0] = check_payload(&prev, 24);
+    *CX_RES[0].mu() = check_payload(&prev, 24);
     drop(prev);
     merge();
 }
@@ -337,7 +352,7 @@ pub extern "C" fn cs_w_rcu_t1() {
 pub extern "C" fn cs_w_rcu_t2() {
     let prev = a().rcu(|v| pool(v.idx() + 1).clone());
     merge();
-    cx().res[1] = check_payload(&prev, 25);
+    *CX_RES[1].mu() = check_payload(&prev, 25);
     drop(prev);
     merge();
 }
@@ -350,7 +365,7 @@ pub extern "C" fn cs_final_rcu2() {
     merge();
     // two increments compose: 0 -> 1 -> 2, each rcu returns what it replaced
     vassert(f == 2, 63);
-    let (p, q) = (cx().res[0], cx().res[1]);
+    let (p, q) = (*CX_RES[0].get(), *CX_RES[1].get());
     vassert((p == 0 && q == 1) || (p == 1 && q == 0), 64);
     expect_counts(f, usize::MAX);
     vassert(slots_all_empty(), 42);
@@ -386,19 +401,19 @@ pub extern "C" fn cs_w_store_pool12() {
 #[no_mangle]
 pub extern "C" fn cs_fill8a_t1() {
     for i in 0..8 {
-        cx().held1[i] = Some(a().load());
+        *CX_HELD1[i].mu() = Some(a().load());
     }
 }
 
 /// prologue of thread 1: a guard of A parked for another thread
 #[no_mangle]
 pub extern "C" fn cs_park_t1() {
-    cx().parked = Some(a().load());
+    *CX_PARKED.mu() = Some(a().load());
 }
 /// thread 2 drops the guard that thread 1 created
 #[no_mangle]
 pub extern "C" fn cs_drop_parked() {
-    let g = cx().parked.take().unwrap();
+    let g = CX_PARKED.mu().take().unwrap();
     merge();
     check_payload(&g, 26);
     drop(g);
@@ -409,9 +424,63 @@ pub extern "C" fn cs_drop_parked() {
 #[no_mangle]
 pub extern "C" fn cs_fill8_wrap_t1() {
     for i in 0..8 {
-        cx().held1[i] = Some(b().load());
+        *CX_HELD1[i].mu() = Some(b().load());
     }
     set_generation(u64::MAX - 3);
+}
+
+// ------------------------------------------------------------------ C07: publication / data races
+
+/// like cs_setup2 but destruction scribbles over the payload (a plain write)
+#[no_mangle]
+pub extern "C" fn cs_setup2_scribble() {
+    cs_setup2();
+    SCRIBBLE.store_ungated(1);
+}
+#[no_mangle]
+pub extern "C" fn cs_setup1_scribble() {
+    cs_setup1();
+    SCRIBBLE.store_ungated(1);
+}
+
+/// writer: fill in the value (plain writes) and only then publish it; the old value is destroyed
+#[no_mangle]
+pub extern "C" fn cs_w_publish1() {
+    let v = spare(1);
+    v.set_payload(77);
+    a().store(v);
+    merge();
+}
+/// reader: whatever it gets, the payload is what was written before publication
+#[no_mangle]
+pub extern "C" fn cs_r_published() {
+    let g = a().load();
+    merge();
+    let p = g.read();
+    vassert((g.idx() == 0 && p == 10) || (g.idx() == 1 && p == 77), 30);
+    drop(g);
+    merge();
+}
+/// reader through load_full (owned handle)
+#[no_mangle]
+pub extern "C" fn cs_r_published_full() {
+    let v = a().load_full();
+    merge();
+    let p = v.read();
+    vassert((v.idx() == 0 && p == 10) || (v.idx() == 1 && p == 77), 31);
+    drop(v);
+    merge();
+}
+/// writer that takes the previous value out and looks into it (it was published by the setup)
+#[no_mangle]
+pub extern "C" fn cs_w_publish_swap() {
+    let v = spare(1);
+    v.set_payload(77);
+    let old = a().swap(v);
+    merge();
+    vassert(old.read() == 10, 32);
+    drop(old);
+    merge();
 }
 
 // ------------------------------------------------------------------ finals
@@ -425,13 +494,13 @@ fn expect_counts(stored_a: usize, stored_b: usize) {
         if i == stored_b {
             want += 1;
         }
-        if cx().kept[i].is_some() {
+        if CX_KEPT[i].get().is_some() {
             want += 1;
         }
-        if cx().spare[i].is_some() {
+        if CX_SPARE[i].get().is_some() {
             want += 1;
         }
-        if cx().pool[i].is_some() {
+        if CX_POOL[i].get().is_some() {
             want += 1;
         }
         vassert(count_of_gated(i) == want, 50 + i as u32);
@@ -461,11 +530,11 @@ pub extern "C" fn cs_final1() {
 #[no_mangle]
 pub extern "C" fn cs_final2_release() {
     for i in 0..8 {
-        if let Some(h) = cx().held1[i].take() {
+        if let Some(h) = CX_HELD1[i].mu().take() {
             check_payload(&h, 44);
             drop(h);
         }
-        if let Some(h) = cx().held2[i].take() {
+        if let Some(h) = CX_HELD2[i].mu().take() {
             check_payload(&h, 45);
             drop(h);
         }
@@ -478,11 +547,11 @@ pub extern "C" fn cs_final2_release() {
 #[no_mangle]
 pub extern "C" fn cs_final1_release() {
     for i in 0..8 {
-        if let Some(h) = cx().held1[i].take() {
+        if let Some(h) = CX_HELD1[i].mu().take() {
             check_payload(&h, 44);
             drop(h);
         }
-        if let Some(h) = cx().held2[i].take() {
+        if let Some(h) = CX_HELD2[i].mu().take() {
             check_payload(&h, 45);
             drop(h);
         }
